@@ -60,6 +60,9 @@ func circuitText(c *circuit.Circuit) string {
 	return s
 }
 
+// sharedKeyBuf is refilled with a new key for a quarter of the cases.
+var sharedKeyBuf [32]byte
+
 func runC01(c *Ctx) error {
 	n := c.N(180, 12000)
 	keyLens := []int{16, 24, 32}
@@ -90,6 +93,14 @@ func runC01(c *Ctx) error {
 			c.Hist("circuit:gate-writes-input-wire")
 		}
 		key := r.Bytes(keyLens[i%3])
+		if i%8 == 1 || i%8 == 2 {
+			// successive sessions often refill ONE key buffer (var key [32]byte; rand.Read(key[:])):
+			// two CONSECUTIVE cases share the backing array and the length, with new contents
+			key = r.Bytes(keyLens[(i/8)%3])
+			copy(sharedKeyBuf[:], key)
+			key = sharedKeyBuf[:len(key)]
+			c.Hist("key:shared-buffer-refilled")
+		}
 		ni := circ.Inputs.Size()
 		no := circ.Outputs.Size()
 		// The same *Circuit is garbled several times with Release in between, so that
